@@ -135,4 +135,43 @@ theorem intInRange_toInt (t : DType) (w : Nat) (h : w < wordBound t) : intInRang
   · simp; omega
   · simp; omega
 
+/-! ### data path -/
+
+/-- with the default bounds the whole array goes through unchanged, whatever the values (NaN, inf, 2^63-1 …) -/
+theorem clipData_default' (t : DType) (rows : List (List Nat)) : clipData t none none rows = rows := by
+  unfold clipData
+  have hw : ∀ w, clipWord t none none w = w := by
+    intro w; unfold clipWord; cases t.kind <;> simp
+  have hr : ∀ r : List Nat, r.map (clipWord t none none) = r := by
+    intro r
+    calc r.map (clipWord t none none) = r.map id := List.map_congr_left (fun w _ => hw w)
+      _ = r := List.map_id _
+  calc rows.map (fun r => r.map (clipWord t none none)) = rows.map id := List.map_congr_left (fun r _ => hr r)
+    _ = rows := List.map_id _
+
+/-- the data setter keeps an array of the right shape bit-identical (default bounds) -/
+theorem setData_id' {ν : Type} (g : Grid ν) (rows : List (List Nat)) (hb : g.lo = none ∧ g.hi = none)
+    (hr : (rows.length : Int) = g.nrows) (hc : ∀ r ∈ rows, (r.length : Int) = g.ncols) :
+    setData g rows = .ok { g with data := rows } := by
+  unfold setData
+  rw [if_neg (by simpa [hr] using hc)]
+  rw [hb.1, hb.2, clipData_default']
+
+/-! ### array store -/
+
+theorem read_set_ne (s : Store) (a : Handle) (i : Nat) (v : List (List Nat)) (h : a.arr ≠ i) :
+    Store.read (s.set i v) a = Store.read s a := by
+  unfold Store.read
+  simp [List.getD_eq_getElem?_getD, List.getElem?_set_ne (Ne.symm h)]
+
+theorem read_append (s : Store) (a : Handle) (x : List (List Nat)) (h : a.arr < s.length) :
+    Store.read (s ++ [x]) a = Store.read s a := by
+  unfold Store.read
+  simp [List.getD_eq_getElem?_getD, List.getElem?_append_left h]
+
+theorem read_append_new (s : Store) (x : List (List Nat)) : Store.read (s ++ [x]) ⟨s.length⟩ = x := by
+  unfold Store.read
+  simp [List.getD_eq_getElem?_getD]
+
+
 end HydroVerif.C13
